@@ -158,6 +158,11 @@ def tarr_obs(a):
     return [tname(a), [tval(x) for x in a], len(a)]
 
 
+class _COLOUR(__import__("enum").IntEnum):
+    RED = 1
+    BLUE = 3
+
+
 def generic_obs(x):
     from nitypes.waveform import ExtendedPropertyDictionary, Timing
     import nitypes.bintime as bt
@@ -449,6 +454,14 @@ def _mk_value(c):
             import numpy as np
             v = {"f64": np.float64(1.5), "str": np.str_("abc"), "f64z": np.float64(0.0)}[c["np"]]
         return Scalar(v, c["units"], extended_properties=mk_props(c["p"])) if c["units"] is not None else Scalar(v, extended_properties=mk_props(c["p"]))
+    if k == "vecx":
+        # elements of a subclass of the four value types: the value type is that subclass, for the copy too
+        import enum
+        import numpy as np
+        Colour = _COLOUR
+        items = {"f64": [np.float64(1.5), np.float64(-2.0)], "str": [np.str_("ab"), np.str_("")], "enum": [Colour.RED, Colour.BLUE],
+                 "f64_1": [np.float64(0.0)]}[c["np"]]
+        return Vector(items, c["units"], extended_properties=mk_props(c["p"]))
     if k == "vec":
         vec = Vector([], c["units"], value_type=c18.TYPES[c["t"]], extended_properties=mk_props(c["p"]))
         for v in c["init"]:
@@ -523,7 +536,7 @@ def _pgen(tag, g):
     return [lets + "PAll [(" + a + "); (" + b + ")]"]
 
 
-TAGS = {"wfm": 1, "wfmd": 2, "signal": 3, "timing": 4, "scale": 5, "props": 6, "bt": 7, "tarr": 8, "scalar": 9, "vec": 10, "xy": 11}
+TAGS = {"wfm": 1, "wfmd": 2, "signal": 3, "timing": 4, "scale": 5, "props": 6, "bt": 7, "tarr": 8, "scalar": 9, "vec": 10, "xy": 11, "vecx": 12}
 
 
 def to_coq(c, r):
@@ -687,6 +700,10 @@ def gen_cases(rng, tier):
         if rng.random() < 0.15:
             ops.append({"op": "clear"})
         cases.append({"k": "vec", "t": t, "init": init, "ops": ops, "units": rng.choice(["", "V"]), "p": [x for x in _props_desc(rng) if x[0] != "NI_UnitDescription"], "m": meth()})
+    for kind in ("f64", "str", "enum", "f64_1"):
+        for _ in range(2 if not big else 6):
+            cases.append({"k": "vecx", "np": kind, "units": rng.choice(["", "V"]),
+                          "p": [x for x in _props_desc(rng) if x[0] != "NI_UnitDescription"], "m": meth()})
     for i in range(100 if not big else 1500):
         n = rng.choice([0, 1, 2, 4])
         dtype = rng.choice(["float64", "float32", "int8", "int16", "int32", "int64", "uint8", "uint16", "uint32", "uint64"])
